@@ -367,4 +367,96 @@ theorem step_mx_line (E : Codec) (env : Env) (hsp : env.isSpace = pyIsSpace) (en
   rw [this]
   exact dispatch_mx env hsp enc n i sep g.choices _ _
 
+/-! ### `#|` lines (previous msgctxt / msgid / msgid_plural) -/
+
+structure IsPrevKw (kw : Text) (sym : Sym) : Prop where
+  ne : kw ≠ []
+  nonspace : ∀ c ∈ kw, pyIsSpace c = false
+  lookup : lookupKw kw I18n.Generated.PolibFsm.prevKeywords = some sym
+  head : kw.head? ≠ some '"'
+
+theorem isPrevKw_msgctxt : IsPrevKw "msgctxt".toList .pc := ⟨by decide, by decide, by decide, by decide⟩
+theorem isPrevKw_msgid : IsPrevKw "msgid".toList .pm := ⟨by decide, by decide, by decide, by decide⟩
+theorem isPrevKw_msgid_plural : IsPrevKw "msgid_plural".toList .pp := ⟨by decide, by decide, by decide, by decide⟩
+
+theorem prev_core_facts (psep rest : Text) (hrest : rest ≠ []) (hlast : LastNot pyIsSpace rest) :
+    HeadNot pyIsSpace ('#' :: '|' :: (psep ++ rest)) ∧ LastNot pyIsSpace ('#' :: '|' :: (psep ++ rest)) := by
+  refine ⟨by intro c r e; simp at e; rw [← e.1]; decide, ?_⟩
+  have : '#' :: '|' :: (psep ++ rest) = ('#' :: '|' :: psep) ++ rest := by simp
+  rw [this]; exact lastNot_append _ _ hrest hlast
+
+theorem step_prev_kw_line (env : Env) (hsp : env.isSpace = pyIsSpace) (enc : Bytes) (n : Nat)
+    (psep : Text) (hpsep : psep ≠ []) (hpbl : Blank psep) (kw : Text) (sym : Sym) (hkw : IsPrevKw kw sym)
+    (sep : Text) (hsep : sep ≠ []) (hbl : Blank sep) (g : Seg) (hl : Blank g.lpad) (hr : ∀ c ∈ g.rpad, pyIsSpace c = true) (s : PState) :
+    stepLine env enc n (kwLine (.previous psep) kw sep g) s =
+      process env enc n sym (quoted g.choices) { s with entryObsolete := false, lastTok := some ['#', '|'] } := by
+  obtain ⟨b, bs, hsepc⟩ := List.exists_cons_of_ne_nil hsep
+  obtain ⟨pb, pbs, hpsepc⟩ := List.exists_cons_of_ne_nil hpsep
+  obtain ⟨ka, kas, hkwc⟩ := List.exists_cons_of_ne_nil hkw.ne
+  have hsepsp := blank_space sep hbl
+  have hpsepsp := blank_space psep hpbl
+  have hrest : ∀ c r, sep ++ quoted g.choices = c :: r → pyIsSpace c = true := by
+    intro c r e; rw [hsepc] at e; simp at e; rw [← e.1]; exact hsepsp b (by rw [hsepc]; simp)
+  have hk1 := splitWs_tok (p := pyIsSpace) 0 kw (sep ++ quoted g.choices) hkw.ne hkw.nonspace hrest
+  have hq0 : splitWs pyIsSpace 0 (sep ++ quoted g.choices) ≠ [] := splitWs_ne_nil 0 _ '"' (by simp [quoted]) (by decide)
+  have hsplit : splitWs pyIsSpace 2 ('#' :: '|' :: (psep ++ (kw ++ (sep ++ quoted g.choices)))) =
+      ['#', '|'] :: kw :: splitWs pyIsSpace 0 (sep ++ quoted g.choices) := by
+    have := splitWs_tok (p := pyIsSpace) 1 ['#', '|'] (psep ++ (kw ++ (sep ++ quoted g.choices))) (by simp)
+      (by intro c hc; simp at hc; rcases hc with rfl | rfl <;> decide)
+      (by intro c r e; rw [hpsepc] at e; simp at e; rw [← e.1]; exact hpsepsp pb (by rw [hpsepc]; simp))
+    simp only [List.cons_append, List.nil_append] at this
+    rw [this, splitWs_pad 1 psep _ hpsepsp, hk1]
+  have hfacts := prev_core_facts psep (kw ++ (sep ++ quoted g.choices)) (by simp [hkwc])
+    (lastNot_append _ _ (by simp [quoted]) (lastNot_append _ _ (by simp [quoted]) (quoted_lastNot g.choices)))
+  have hstep := stepLine_plain env hsp enc n g.lpad ('#' :: '|' :: (psep ++ (kw ++ (sep ++ quoted g.choices)))) g.rpad
+    (blank_space _ hl) hr (by simp) hfacts.1 hfacts.2
+    (by
+      intro c r e
+      cases hlp : g.lpad with
+      | nil => rw [hlp] at e; simp at e; rw [← e.1]; decide
+      | cons x xs => rw [hlp] at e; simp at e; rw [← e.1]; exact blank_ne_bom _ hl x (by rw [hlp]; simp))
+    ['#', '|'] _ hsplit (by decide) (by decide) s
+  have hline : lstrip pyIsSpace (('#' :: '|' :: (psep ++ (kw ++ (sep ++ quoted g.choices)))).drop 2) = kw ++ (sep ++ quoted g.choices) := by
+    simp only [List.drop_succ_cons, List.drop_zero]
+    exact lstrip_pad psep _ hpsepsp (by intro c r e; rw [hkwc] at e; simp at e; rw [← e.1]; exact hkw.nonspace ka (by rw [hkwc]; simp))
+  have htok : lstrip pyIsSpace ((kw ++ (sep ++ quoted g.choices)).drop kw.length) = quoted g.choices := by
+    rw [List.drop_left]; exact lstrip_pad sep _ hsepsp (quoted_headNot g.choices)
+  have hnq : startsWith ['"'] kw = false := by
+    have := hkw.head; rw [hkwc] at this ⊢; simp at this; simp [startsWith, this]
+  obtain ⟨q0, qs, hq0c⟩ := List.exists_cons_of_ne_nil hq0
+  simp only [kwLine, Prefix.render, List.cons_append]
+  rw [hstep]
+  simp only [dispatch, hsp, hline, htok, hnq, hkw.lookup, hq0c]
+  simp [lookupKw, I18n.Generated.PolibFsm.keywords, startsWith]
+
+theorem step_prev_cont_line (env : Env) (hsp : env.isSpace = pyIsSpace) (enc : Bytes) (n : Nat)
+    (psep : Text) (hpsep : psep ≠ []) (hpbl : Blank psep) (g : Seg) (hl : Blank g.lpad) (hr : ∀ c ∈ g.rpad, pyIsSpace c = true) (s : PState) :
+    stepLine env enc n (contLine (.previous psep) g) s =
+      process env enc n .mc (quoted g.choices) { s with entryObsolete := false, lastTok := some ['#', '|'] } := by
+  obtain ⟨pb, pbs, hpsepc⟩ := List.exists_cons_of_ne_nil hpsep
+  have hpsepsp := blank_space psep hpbl
+  obtain ⟨r, t2, h2⟩ := splitWs_quoted 0 g.choices
+  have hsplit : splitWs pyIsSpace 2 ('#' :: '|' :: (psep ++ quoted g.choices)) = ['#', '|'] :: ('"' :: r) :: t2 := by
+    have := splitWs_tok (p := pyIsSpace) 1 ['#', '|'] (psep ++ quoted g.choices) (by simp)
+      (by intro c hc; simp at hc; rcases hc with rfl | rfl <;> decide)
+      (by intro c r e; rw [hpsepc] at e; simp at e; rw [← e.1]; exact hpsepsp pb (by rw [hpsepc]; simp))
+    simp only [List.cons_append, List.nil_append] at this
+    rw [this, splitWs_pad 1 psep _ hpsepsp, h2]
+  have hfacts := prev_core_facts psep (quoted g.choices) (by simp [quoted]) (quoted_lastNot g.choices)
+  have hstep := stepLine_plain env hsp enc n g.lpad ('#' :: '|' :: (psep ++ quoted g.choices)) g.rpad
+    (blank_space _ hl) hr (by simp) hfacts.1 hfacts.2
+    (by
+      intro c r e
+      cases hlp : g.lpad with
+      | nil => rw [hlp] at e; simp at e; rw [← e.1]; decide
+      | cons x xs => rw [hlp] at e; simp at e; rw [← e.1]; exact blank_ne_bom _ hl x (by rw [hlp]; simp))
+    ['#', '|'] _ hsplit (by decide) (by decide) s
+  have hline : lstrip pyIsSpace (('#' :: '|' :: (psep ++ quoted g.choices)).drop 2) = quoted g.choices := by
+    simp only [List.drop_succ_cons, List.drop_zero]
+    exact lstrip_pad psep _ hpsepsp (quoted_headNot g.choices)
+  simp only [contLine, Prefix.render, List.cons_append]
+  rw [hstep]
+  simp only [dispatch, hsp, hline]
+  simp [lookupKw, I18n.Generated.PolibFsm.keywords, startsWith]
+
 end I18n.Lemmas.PoLines
